@@ -580,4 +580,63 @@ class ForeignTrapVariables(object):
         return repr(out), vs, 4
 
 
-FAMILIES = [Imports(), Equivalence(), EquivalenceOtherDialects(), TypeIndex(), RenamedUses(), MixedImports(), ForeignTrapVariables()]
+class AfterTheBaseModules(object):
+    name = 'after-the-base-modules-were-generated'
+    describe = ('ONE compiler on which the SMIv1 base modules themselves are not stubbed but generated (RFC1155-SMI declares Counter, '
+                'Gauge, NetworkAddress ...; RFC-1212, RFC1213-MIB): in an earlier call, or in the same call before / after the module '
+                'under test; then each single shape: the text written for the SMIv1 module is the one a fresh compiler writes, and '
+                'the pysnmp module executes')
+
+    HISTORIES = [('earlier-call', ['RFC1155-SMI']), ('earlier-call', ['RFC1155-SMI', 'RFC-1212', 'RFC1213-MIB']),
+                 ('same-call-before', ['RFC1155-SMI']), ('same-call-after', ['RFC1155-SMI'])]
+
+    def blocks(self, tier):
+        return [{'h': h, 'backend': b} for h in range(len(self.HISTORIES)) for b in ('pysnmp', 'json')]
+
+    def cases(self, block, tier):
+        for i in range(len(SHAPES)):
+            if SHAPES[i][0] in ('scalar', 'scalar-defval', 'table', 'trap', 'trap0'):
+                yield {'h': block['h'], 'backend': block['backend'], 'shape': i}
+
+    def run_case(self, case):
+        from mc.checks import C12
+        how, base = self.HISTORIES[case['h']]
+        v1d = fixed_context(False) + shape_decls(SHAPES[case['shape']], 0, False)
+        m1 = {'name': 'V1TEST-MIB', 'imports': v1_imports(v1d), 'decls': v1d}
+        t1 = mibspec.pretty([m1])
+        fresh_res, fresh_w = compile_v({'V1TEST-MIB': t1}, ['V1TEST-MIB'], case['backend'])
+        sig = 'C16|after-base-modules|%s|%s|%s' % (how, SHAPES[case['shape']][0], case['backend'])
+        if fresh_res.get('V1TEST-MIB') != 'compiled':
+            return 'fresh-%s' % fresh_res.get('V1TEST-MIB'), [], 1     # (what a fresh compiler makes of the shape is the equivalence family's business)
+        alltexts = env.base_texts()
+        alltexts.update(stubs())
+        alltexts['V1TEST-MIB'] = t1
+        w = env.CaptureWriter()
+        parser = env.shared_parser('smiV1Relaxed')
+        parser.reset()
+        comp = env.MibCompiler(parser, env.make_codegen(case['backend']), w)
+        comp.addSources(env.DictReader(alltexts))
+        comp.addSearchers(env.StubSearcher(*[n for n in STUB_NAMES if n not in base]))
+        try:
+            if how == 'earlier-call':
+                comp.compile(*base, ignoreErrors=True)
+                del w.written[:]
+                res = comp.compile('V1TEST-MIB')
+            elif how == 'same-call-before':
+                res = comp.compile(*(base + ['V1TEST-MIB']), ignoreErrors=True)
+            else:
+                res = comp.compile(*(['V1TEST-MIB'] + base), ignoreErrors=True)
+        except Exception as exc:
+            return 'escaped', [('%s|exception-escapes|%s' % (sig, type(exc).__name__), repr(exc)[:300])], 2
+        got = dict((n, d) for n, d, _ in w.written).get('V1TEST-MIB')
+        vs = []
+        if res.get('V1TEST-MIB') != 'compiled' or got is None:
+            vs.append(('%s|not-compiled' % sig, '%r %r' % (res.get('V1TEST-MIB'), getattr(res.get('V1TEST-MIB'), 'error', None))))
+        elif C12.mask(got) != C12.mask(fresh_w['V1TEST-MIB']):
+            a, b = C12.mask(fresh_w['V1TEST-MIB']).splitlines(), C12.mask(got).splitlines()
+            diff = [(x, y) for x, y in zip(a, b) if x != y][:3]
+            vs.append(('%s|text-differs-from-a-fresh-compiler' % sig, 'first differing lines (fresh, after the history): %r' % diff))
+        return 'ok' if not vs else 'bad', vs, 2
+
+
+FAMILIES = [Imports(), Equivalence(), EquivalenceOtherDialects(), TypeIndex(), RenamedUses(), MixedImports(), ForeignTrapVariables(), AfterTheBaseModules()]
